@@ -158,11 +158,9 @@ fn oracle(c: &Case, ctx: &mut Ctx) -> CaseResult {
 				println!("==== history (panicked) ====\n{}", dump_history(&sim));
 			}
 			let (msg, loc) = vcore::take_last_panic().unwrap_or_default();
-			if msg.contains("Latest counterparty commitment secret was invalid") && blocked_raa_update_lost_on_reload(&sim) {
+			if let Some(key) = classify_id_reuse_panic(&sim, &msg) {
 				// listed finding, matched on its mechanism (see known_findings.json)
-				Err(Failure::new("panic", format!("panic at {}: {}", loc, msg)).with_key("panic/commitment-secret-rejected/blocked-raa-update-dropped-on-stale-reload"))
-			} else if msg.contains("Attempted to apply post-force-close ChannelMonitorUpdate") && blocked_raa_update_lost_on_reload(&sim) {
-				Err(Failure::new("panic", format!("panic at {}: {}", loc, msg)).with_key("panic/post-force-close-update/blocked-update-id-reused-after-stale-reload"))
+				Err(Failure::new("panic", format!("panic at {}: {}", loc, msg)).with_key(key))
 			} else {
 				vcore::set_last_panic(Some((msg, loc)));
 				std::panic::resume_unwind(payload)
